@@ -1862,10 +1862,22 @@ class Obj(Container):
         if itmd is None:
             expanded = self.sympy
         else:
-            expanded = itmd.expand_itmd(
-                indices=self.idx, return_sympy=True, fully_expand=fully_expand
-            )
-            expanded = Pow(expanded, self.exponent)
+            exponent = sympify(self.exponent)
+            if exponent.is_Integer and exponent > 1:
+                # expand each occurence of the intermediate separately:
+                # the contracted indices of the expanded intermediates
+                # must not be shared between the factors
+                expanded = Mul(*(
+                    itmd.expand_itmd(indices=self.idx, return_sympy=True,
+                                     fully_expand=fully_expand)
+                    for _ in range(int(exponent))
+                ))
+            else:
+                expanded = itmd.expand_itmd(
+                    indices=self.idx, return_sympy=True,
+                    fully_expand=fully_expand
+                )
+                expanded = Pow(expanded, exponent)
 
         if return_sympy:
             return expanded
